@@ -92,7 +92,8 @@ class Module:
         self.name = rel[:-3].replace("/", ".")
         if self.name.endswith(".__init__"):
             self.name = self.name[: -len(".__init__")]
-        self.tree = ast.parse(open(os.path.join(repo, rel)).read())
+        from ..translate import parse as _parse
+        self.tree = _parse(os.path.join(repo, rel))[0]   # module-level constants and params.X inlined
         # aliases of numpy / numpy.random / stdlib random in this module
         self.np, self.nprandom, self.pyrandom, self.direct = set(), set(), set(), {}
         for n in ast.walk(self.tree):
